@@ -166,11 +166,18 @@ func (d *dumper) file(ast *parser.Thrift) fileDump {
 			if !fn.Void {
 				add("R.%s.%d.%s", hexs(s.Name), k, nodesStr(d.nodes(ast, fn.FunctionType, nil)))
 			}
+			mb := func(f *parser.Field) string {
+				var bs []*Extra
+				if f.IsSetDefault() {
+					bs = binds(f.Default, nil)
+				}
+				return bindsStr(bs)
+			}
 			for a, f := range fn.Arguments {
-				add("A.%s.%d.%d.%s", hexs(s.Name), k, a, nodesStr(d.nodes(ast, f.Type, nil)))
+				add("A.%s.%d.%d.%s.%s", hexs(s.Name), k, a, nodesStr(d.nodes(ast, f.Type, nil)), mb(f))
 			}
 			for a, f := range fn.Throws {
-				add("X.%s.%d.%d.%s", hexs(s.Name), k, a, nodesStr(d.nodes(ast, f.Type, nil)))
+				add("X.%s.%d.%d.%s.%s", hexs(s.Name), k, a, nodesStr(d.nodes(ast, f.Type, nil)), mb(f))
 			}
 		}
 	}
